@@ -417,6 +417,50 @@ def clause_g(facts, rep):
         rep.require(nL >= 2 and nR >= 2, 'C07.g: interval tests found: %d lower, %d upper' % (nL, nR))
 
 
+def clause_digit_text(facts, rep):
+    """every character the number formatter emits is a digit: (1) a pair copied out of the two-digit table starts at an
+    even... at an index whose two bytes lie inside the 100 pairs (the table's trailing NUL bytes are not digits);
+    (2) a single character computed as '0' + x has x in [0, 9] -- both by interval analysis under the path guards.
+    Contract used (trusted): the decimal exponent of a finite double lies in [-343, 308]."""
+    from .. import e3_interval
+    e3_interval.FIELD_RANGES[('F64Decimal', 'exp')] = (-343, 308)
+    tabs = table_value_ranges(facts)
+    st = [x for x in facts.statics if x['name'] == 'kDigits']
+    rep.require(len(st) >= 1, 'C07: kDigits not found')
+    if not st:
+        return
+    check_table_subscripts(facts, rep, 'E3.kdigits-index', st[0]['qn'], 200, width_of=lambda f, e: 2, only_files=('internal/ftoa.h',), min_sites=8)
+    n = 0
+    seen = set()
+    for f in facts.functions:
+        if not f.file.endswith('internal/ftoa.h'):
+            continue
+        sites = []
+        for bid, i, s_, e in f.walk():
+            if e.get('k') == 'bin' and e['op'] == '+' and (e.get('t') or '') in ('int', 'unsigned int', 'long', 'unsigned long'):
+                for a, b in ((e['l'], e['r']), (e['r'], e['l'])):
+                    sa = strip(a)
+                    if cval(a) == 48 and sa is not None and sa.get('k') == 'lit' and cval(b) is None:
+                        sites.append((bid, i, e, b))
+        if not sites:
+            continue
+        iv = intervals_for(facts, f, tabs)
+        rep.fn(f)
+        for bid, i, e, x in sites:
+            key = (f.qn, show(e), locline(e['loc']))
+            if key in seen:
+                continue
+            seen.add(key)
+            stt = iv.at(bid, i)
+            if stt is None:
+                continue
+            r = iv.ev(x, dict(stt))
+            n += 1
+            rep.check(r[0] >= 0 and r[1] <= 9, 'E3.digit-char', f.qn, show(e), locline(e['loc']),
+                      "range of the value added to '0': [%s, %s] must lie in [0, 9]" % r, facts.config)
+    rep.require(n >= 3, "C07: '0' + x character computations found in ftoa.h: %d (>= 3 expected)" % n)
+
+
 def run(rep, tier):
     configs = ['K1'] if tier == 'quick' else ['K1', 'K3', 'K7']
     for cfg in configs:
@@ -428,10 +472,12 @@ def run(rep, tier):
         clause_e(facts, rep)
         clause_f(facts, rep)
         clause_g(facts, rep)
+        clause_digit_text(facts, rep)
         from .. import narrowing
         narrowing.check(facts, rep, 'E3.lossless-narrowing', ('ftoa.h',), bounds={('FormatSignificand', 'sig'): 10 ** 17}, min_sites=2)
     rep.trust('clang 14 front end and constant evaluator', 'Python big integers / fractions',
-              'contract: the decimal significand handed to FormatSignificand has at most 17 digits (< 10^17)')
+              'contract: the decimal significand handed to FormatSignificand has at most 17 digits (< 10^17)',
+              'contract: the decimal exponent of a finite double produced by F64ToDecimal lies in [-343, 308]')
     rep.assumptions += [
         'decides the power-of-ten table, the log approximations on the whole double exponent range, the table index range, the digit-count thresholds, that every text has a fraction or exponent, the length bound, that both interval endpoints use the same parity adjustment, and that no 64->32 bit truncation in the digit formatter loses value',
         'does NOT decide shortest/closest/round-trip: the Schubfach interval arithmetic itself is value level',
